@@ -4,6 +4,7 @@ import json
 import os
 import subprocess
 import sys
+import tempfile
 import time
 
 sys.path.insert(0, os.path.dirname(os.path.dirname(os.path.dirname(os.path.abspath(__file__)))))
@@ -165,6 +166,18 @@ def handle(exe, env, flavour, base, v):
     if traces[0] != traces[1]:
         raise common.HarnessFault("C20 %s run %d: schedules differ between two executions of the same seed" % (flavour, v["idx"]))
     small, sched, ntests = minimise(exe, env, plan, sig, traces[0])
+    # write the concrete array contents into the replay plan: the file then no longer depends on the content generator
+    fd, tmpp = tempfile.mkstemp(prefix="embed-", suffix=".json", dir=build.CACHE)
+    with os.fdopen(fd, "w") as f:
+        json.dump({"plan": small}, f)
+    rc, out, err = pyfleet.run_single(exe, env, DRIVER, ["--embed", tmpp])
+    os.unlink(tmpp)
+    for line in out.split("\n"):
+        if line.startswith("EMBEDDED "):
+            emb = json.loads(line[9:])
+            v2, s2, _, _ = single(exe, env, {"plan": emb, "schedule": sched}, tf)
+            if v2 == "violation" and s2 == sig:
+                small = emb
     doc = {"property": PROP, "flavour": flavour, "seed": v["seed"], "base_seed": base, "run_index": v["idx"], "class": v["cls"],
            "signature": sig, "plan": small, "schedule": sched, "observed": v["detail"], "minimisation_tests": ntests,
            "original_plan": plan}
